@@ -688,6 +688,22 @@ def handleUnjail (s : State) (h t now : Int) (a signer : Addr) : State × Res :=
         else if t < si.jailedUntil then (s, .err 104)
         else (unjailValidator s h v.addr, .ok)
 
+/-! ## Genesis (genesis.go) -/
+
+/-- `InitGenesis`, one validator of the genesis file: record, indexes, signing info -/
+def genesisOne (s : State) (v : Val) : State :=
+  let s := setChains (setValidator s v) v
+  match aget s.signInfo v.addr with
+  | some _ => s
+  | none => { s with signInfo := aset s.signInfo v.addr ⟨0, 0, 0, 0, 0⟩ }
+
+/-- `InitGenesis` up to (not including) its closing `UpdateTendermintValidators`: the pool receives the tokens
+of the validators that are **staked** (`IsStaked()`), not of the unstaking ones -/
+def initGenesis (p : Params) (vs : List Val) (bal : List (Addr × Int)) (supply0 : Int) : State :=
+  let s := vs.foldl genesisOne { params := p, bal := bal, supply := supply0 }
+  let staked := ((vs.filter fun v => decide (v.status = .staked)).map (·.tokens)).sum
+  { s with pool := staked, supply := s.supply + staked }
+
 /-! ## Operations and histories -/
 
 inductive Op where
